@@ -112,7 +112,11 @@ func genMixedTx(rng *rand.Rand, g *GenesisSpec) Op {
 	case k < 74: // creation tx
 		op.Init = pick(rng, "store", "logs", "clear", "sd", "revert")
 		op.Gas = pick(rng, "i+300000", "i+600000", "i+20000")
-		op.Val = pick(rng, "0", "0", "9")
+		op.Val = pick(rng, "0", "0", "9", "999999999999999999999999999")
+		if rng.IntN(4) == 0 {
+			// the address the contract will get already holds coins of another denomination only
+			return Op{K: "bank", W: (w + 1) % g.Wallets, To: fmt.Sprintf("cr:%d:%d", w, rng.IntN(2)), Val: pick(rng, "1", "1000000"), Denom: "utwo", Price: "b+1", Gas: "200000"}
+		}
 	case k < 78: // call something created earlier in the run
 		op.To = fmt.Sprintf("n:%d", rng.IntN(40))
 		op.Data = hexWord(rng.IntN(9)) + hexWord(0)
